@@ -89,3 +89,42 @@ func verifC14NativeActionDir() {
 }
 
 func verifC14Root() string { return verifC14Tmp }
+
+// verifC02NativeJobOrder: 60 repetitions on a real directory tree under Go's own random map order.
+func verifC02NativeJobOrder(src string) {
+	tmp, err := os.MkdirTemp("", "verif-c02-")
+	if err != nil {
+		panic(err)
+	}
+	defer os.RemoveAll(tmp)
+	tmp, _ = filepath.EvalSymlinks(tmp)
+	must := func(err error) {
+		if err != nil {
+			panic(err)
+		}
+	}
+	must(os.MkdirAll(filepath.Join(tmp, ".github", "workflows"), 0o755))
+	must(os.MkdirAll(filepath.Join(tmp, ".git"), 0o755))
+	must(os.MkdirAll(filepath.Join(tmp, "broken"), 0o755))
+	must(os.WriteFile(filepath.Join(tmp, "broken", "action.yml"), []byte("name: act\nruns:\n  using: node20\n  main: index.js\n"), 0o644))
+	must(os.WriteFile(filepath.Join(tmp, "broken", "index.js"), []byte(""), 0o644))
+	wf := filepath.Join(tmp, ".github", "workflows", "w.yml")
+	must(os.WriteFile(wf, []byte(src), 0o644))
+	first := ""
+	for rep := 0; rep < 60; rep++ {
+		l, err := NewLinter(io.Discard, &LinterOptions{})
+		must(err)
+		errs, err := l.LintFile(wf, nil)
+		must(err)
+		out := ""
+		for _, e := range errs {
+			out += e.Error() + "\n"
+		}
+		if rep == 0 {
+			first = out
+			verifCheck(len(errs) >= 2, "shared-errors-are-reported")
+		}
+		verifCheckf(out == first, "output-depends-on-map-iteration-order", out)
+	}
+	verifReach("compared")
+}
